@@ -271,6 +271,8 @@ def _may_release(P):
 
 
 def check(ctx):
+    from . import c02 as _c02b
+    _c02b.check_gc(ctx)            # nothing is collected between a failed install and the latching of its error
     wal.check_emit(ctx)
     check_write(ctx)
     from . import c04
